@@ -45,6 +45,13 @@ def step (t : List String) : String :=
       let f := unhex hex
       " | ".intercalate (ks.map fun k => fmtRead (zygoRead (f.take k)))
     | none => "bad-op"
+  | ["zmeta", hex] =>
+    let f := unhex hex
+    " ".intercalate ((table.filter (fun r => !r.isPad)).map fun r =>
+      match r.code with
+      | .str | .chr => s!"{r.name}=s{hexOf (stripNul (fileSlice f r.lo r.hi))}"
+      | .f32 => s!"{r.name}=f{r.unpack f}"
+      | _ => s!"{r.name}=i{r.unpack f}")
   | ["zrows"] => toString table.length
   | ["zrow", i] =>
     match i.toNat? with
